@@ -210,6 +210,9 @@ func (p *StateProcessor) ApplyMessageEntry(msg Message, statedb *state.StateDB,
 		coinbase = *author
 	}
 	msgCtx := NewMsgContext(msg, statedb, bc, header, coinbase, gp, cfg, recorder)
+	// A refused message must leave the block gas pool as it found it (the caller discards the
+	// state changes, nobody would give the gas back).
+	gasBefore := gp.Gas()
 	// First, do pre check, checks the nonce and buy the supplied gas
 	if err := msgCtx.preCheck(); err != nil {
 		return nil, 0, false, err
@@ -218,10 +221,12 @@ func (p *StateProcessor) ApplyMessageEntry(msg Message, statedb *state.StateDB,
 	c := p.GetConverter(msg.To())
 	intrinsicGas, err := c.IntrinsicGas(msg.Data(), msg.To())
 	if err != nil {
+		*gp = GasPool(gasBefore)
 		return nil, 0, false, err
 	}
 	logging.Trace("tx", "from", msg.From().String(), "tx", msg.TxHash().String(), "intrinsicGas", intrinsicGas)
 	if err = msgCtx.UseGas(intrinsicGas); err != nil {
+		*gp = GasPool(gasBefore)
 		return nil, 0, false, err
 	}
 
@@ -229,6 +234,9 @@ func (p *StateProcessor) ApplyMessageEntry(msg Message, statedb *state.StateDB,
 	ret, gasUsed, failed, err := c.ApplyMessage(msgCtx)
 	//refund gas
 	msgCtx.refundGas()
+	if err != nil {
+		*gp = GasPool(gasBefore)
+	}
 	return ret, gasUsed, failed, err
 }
 
